@@ -81,17 +81,29 @@ def run_impl(ctx, sub, exe, cases, env=None, label=""):
 
 
 def run_all(ctx, sub, cases, spec_cases=None, py_spec=None, rule="", describe=None, real_warnp=False,
-            syslog_verbs=None):
+            syslog_verbs=None, no_model=()):
     """impl vs model on every case; impl vs Coq spec where spec_cases[i] is not None;
     impl vs python oracle where py_spec[i] is not None.
     real_warnp: the build with the library's own util/warnp.c (messages to stderr).
     syslog_verbs: a second pass of the cases with these verbs through the same build after
-    warnp_syslog(1) (VERIF_WARNP_MODE=syslog); same expected results."""
+    warnp_syslog(1) (VERIF_WARNP_MODE=syslog); same expected results.
+    no_model: indices of cases not given to the model runner (list-based memory: quadratic in the
+    string length); they need a python oracle, against which alone the implementation is compared."""
     exe, mexe = build(ctx, sub, real_warnp)
     if not exe:
         return None
     impl, st = run_impl(ctx, sub, exe, cases, env={"VERIF_WARNP_MODE": "stderr"} if real_warnp else None)
-    model, _ = vlib.run_sharded(mexe, cases)
+    skip = set(no_model)
+    midx = [i for i in range(len(cases)) if i not in skip]
+    mout, _ = vlib.run_sharded(mexe, [cases[i] for i in midx])
+    model = [None] * len(cases)
+    for i, o in zip(midx, mout):
+        model[i] = o
+    for i in skip:
+        if py_spec is None or py_spec[i] is None:
+            ctx.fail(sub, "tie", cases[i][:200], "case without model run and without oracle")
+        model[i] = py_spec[i] if py_spec is not None and py_spec[i] is not None else "<not-run>"
+    ctx.count(sub + ".not_given_to_model", len(skip))
     spec = None
     if spec_cases is not None:
         idx = [i for i, c in enumerate(spec_cases) if c is not None]
@@ -580,19 +592,30 @@ LONG_FORMS = [(b"/", b"a", b"", len("socket path too long: ") + 1, "unix_path"),
               (b"[", b"x", b"]", len("Address must contain port number: ") + 2, "missing_port")]
 
 
+def warnp_line_max():
+    """WARNP_SYSLOG_MAX_LINE of the tree under test (4095 in the unchanged tree)."""
+    try:
+        m = re.search(r"#define\s+WARNP_SYSLOG_MAX_LINE\s+(\d+)", open(vlib.repo_src("util/warnp.h")).read())
+        v = int(m.group(1)) if m else 4095
+    except OSError:
+        v = 4095
+    return v if 64 <= v <= 60000 else 4095
+
+
 def gen_resolve_long(ctx):
     """Rejected addresses whose warning text is about as long as warnp's syslog line buffer
-    (WARNP_SYSLOG_MAX_LINE, 4095 characters + NUL): message lengths 4000..4200 (every length
-    4080..4112, steps of 8 elsewhere), and addresses of 8192 and 70000 bytes, for every rejection
-    message that quotes its input.  All are rejected ("fail")."""
-    msg_lens = sorted(set(range(4000, 4201, 8)) | set(range(4080, 4113)))
+    (WARNP_SYSLOG_MAX_LINE, 4095 characters + NUL): message lengths 4000..4200 in steps of 8, every
+    length within -15..+17 of the macro's value, and addresses of 8192 and 70000 bytes, for every rejection
+    message that quotes its input.  All are rejected ("fail").  Yields (address, message length or None)."""
+    mx = warnp_line_max()
+    msg_lens = sorted(set(range(4000, 4201, 8)) | set(range(mx - 15, mx + 18)))
     out = []
     for pre, fill, suf, fixed, name in LONG_FORMS:
         for m in msg_lens:
-            out.append(pre + fill * (m - fixed) + suf)
+            out.append((pre + fill * (m - fixed) + suf, m))
             ctx.count("sock.resolve.long.%s" % name)
         for total in (8192, 70000):
-            out.append(pre + fill * (total - len(pre) - len(suf)) + suf)
+            out.append((pre + fill * (total - len(pre) - len(suf)) + suf, None))
             ctx.count("sock.resolve.long.%s" % name)
     return out
 
@@ -642,7 +665,13 @@ def check_sock_safety(ctx):
         py.append(None)
         cases.append("ensure " + hx(s))
         py.append(None)
-    for s in gen_resolve_long(ctx):
+    # the model runner sees the long addresses around the line-buffer size only (quick tier: message
+    # lengths 4095..4097; thorough: all up to 8192 bytes); the others are compared with "fail" alone
+    skip_model = set()
+    mx = warnp_line_max()
+    for s, m in gen_resolve_long(ctx):
+        if not ((m is not None and mx <= m <= mx + 2) or (ctx.tier == "thorough" and len(s) <= 8192)):
+            skip_model.add(len(cases))
         cases.append("resolve " + hx(s))
         py.append("fail")
     for s, want in gen_resolve_valid(ctx, n // 2):
@@ -669,6 +698,7 @@ def check_sock_safety(ctx):
     # shuffled so that the long addresses (slow in the model) are spread over the shards
     order = list(range(len(cases)))
     r.shuffle(order)
+    no_model = [k for k, i in enumerate(order) if i in skip_model]
     cases, py = [cases[i] for i in order], [py[i] for i in order]
     run_all(ctx, "sock-safety", cases, None, py,
             "sock_resolve / sock_addr_ensure_port on bracketed and Unix-path strings with stray brackets, colons, bad "
@@ -676,8 +706,9 @@ def check_sock_safety(ctx):
             "rejection message that quotes its input (exact strlen+1 allocations); sock_addr_deserialize on buffers "
             "with every inconsistent namelen and every truncation (exact-size allocations), decoded addresses handed "
             "to sock_addr_prettyprint; under ASan+UBSan with the library's own util/warnp.c reporting to stderr, "
-            "results against the model",
-            real_warnp=True, syslog_verbs={"resolve"})
+            "results against the model (rejected addresses of 4 kB and more: against the model at message lengths 4095..4097, "
+            "otherwise against the known result 'fail')",
+            real_warnp=True, syslog_verbs={"resolve"}, no_model=no_model)
     probe_unterminated_unix(ctx, "sock-safety")
 
 
@@ -758,7 +789,9 @@ def check_linefiles_safety(ctx):
     run_all(ctx, "linefiles-safety", cases, None, None,
             "aws_readkeys / readpass_file on files (scratch dir under /tmp) with lines of bufsize-3..3*bufsize "
             "characters with/without terminator, NUL bytes, CR/LF mixes, missing/duplicate keys, under ASan+UBSan "
-            "(stack buffers), results against the fgets-based model")
+            "(stack buffers), results against the fgets-based model; the library's own util/warnp.c linked, every "
+            "case in stderr mode and again in syslog mode (these readers quote the file name only, never content)",
+            real_warnp=True, syslog_verbs={"aws", "rp"})
 
 
 SUBCHECKS = {"C17": [check_b64, check_endian, check_sock],
